@@ -135,6 +135,8 @@ OPAQUE_FUNCS_COMMUTATIVE_ARGS = set()
 def _lit(v) -> Fraction:
     if isinstance(v, bool):
         raise AlgebraError('boolean in arithmetic')
+    if isinstance(v, Fraction):
+        return v
     if isinstance(v, int):
         return Fraction(v)
     if isinstance(v, float):
